@@ -891,7 +891,7 @@ class DATETIME(NUMERIC):
         at = fix(adatetime(year, month, day, hour, minute, second,
                            microsecond))
         if is_void(at):
-            raise Exception("%r is not a parseable date" % qstring)
+            raise ValueError("%r is not a parseable date" % qstring)
         return at
 
     def parse_query(self, fieldname, qstring, boost=1.0):
